@@ -105,6 +105,10 @@ func verifNoteMinSeq(s *session, minSeq uint64, level int) {
 	verifEvent(VerifEvMinSeq, minSeq, uint64(level))
 }
 
+// verifForgetMinSeq drops the note when the compaction job ends without a commit (error, Close), so that the
+// process-wide map does not keep sessions of closed DBs alive.
+func verifForgetMinSeq(s *session) { verifMinSeqs.Delete(s) }
+
 var verifBusy int32
 
 func verifJobBegin() { atomic.AddInt32(&verifBusy, 1) }
